@@ -51,6 +51,7 @@ func init() {
 			{"R16.2", "deletion follows catalog nodes", ruleDeletionFollowsCatalog},
 			{"R16.3", "no file mutation outside the owning gates", ruleNoForeignWriter("R16.3")},
 			{"R16.4", "an uncatalogued bucket is written only after AddTimeBucket validated its key", ruleUncataloguedWriteValidated},
+			{"R17.6", "path prefixes are compared at a separator", rulePathPrefixAtSeparator},
 		},
 	})
 	register(&Property{
@@ -61,6 +62,7 @@ func init() {
 			{"R17.1", "Directory state is accessed under its lock", ruleCatalogLocking},
 			{"R17.2", "structural changes are serialised by the root lock; creation and registration stay together", ruleStructuralChangesSerialised},
 			{"R17.5", "adding a sub-directory drops the cached category set", ruleCategoryCacheInvalidated},
+			{"R17.6", "path prefixes are compared at a separator", rulePathPrefixAtSeparator},
 			{"R3.5", "the catalog scan skips a half-created bucket directory and keeps its siblings", ruleCatalogLoadTolerant},
 		},
 	})
@@ -78,6 +80,7 @@ func init() {
 			{"R18.6", "lazy header load runs only under its sync.Once", ruleLazyLoadOnce},
 			{"R18.7", "a buffered record write is not torn by a flush", ruleBufferedWriteNotTorn},
 			{"R18.9", "the write-back buffer only holds bytes read from the file", ruleWriteBackBufferIsRead},
+			{"R24.4", "no pointer to a range variable outlives its iteration", ruleNoEscapingRangeVarAddress},
 			{"R18.8", "no new shared mutable package-level state in the request path", ruleNoNewSharedPackageState},
 			{"R28.6", "long-lived byte buffers do not escape", ruleScratchBufferDoesNotEscape},
 		},
@@ -93,6 +96,7 @@ func init() {
 			{"R19.4", "BETWEEN maps to one lower and one upper comparison", ruleBetweenMapping},
 			{"R19.5", "float32 columns are compared in their own precision", ruleFilterComparesInColumnPrecision},
 			{"R19.6", "a predicate is unsatisfiable only when min is strictly above max", ruleEmptyRangeStrict},
+			{"R18.8", "statements share no mutable package-level state (pools, memos, scratch buffers)", ruleNoNewSharedPackageState},
 		},
 	})
 	register(&Property{
@@ -101,6 +105,8 @@ func init() {
 		NotCovered:  "the relational equalities themselves.",
 		Rules: []Rule{
 			{"R20.1", "filter → project/alias → LIMIT; errors; INSERT writes what was selected", ruleRelationalOrder},
+			{"R20.4", "every select item is bound with its own alias", ruleAliasPerSelectItem},
+			{"R18.8", "statements share no mutable package-level state (pools, memos, scratch buffers)", ruleNoNewSharedPackageState},
 			{"R19.3", "scan-level limit guarded", rulePushdownGuarded},
 		},
 	})
@@ -114,6 +120,7 @@ func init() {
 			{"R23.3", "empty input is handled before indexing", ruleEmptyInputHandled},
 			{"R23.4", "extremum accumulators are seeded from the input or the correct bound", ruleExtremumSeed},
 			{"R23.5", "running sums are kept in float64", ruleAccumulateInFloat64},
+			{"R23.6", "gap returns only after a scan when there are two or more rows", ruleGapScanNotBypassed},
 		},
 	})
 	register(&Property{
@@ -123,6 +130,7 @@ func init() {
 		Rules: []Rule{
 			{"R24.1", "fresh records win over cached ones; aggregate write errors", ruleFreshWinsOverCache},
 			{"R24.2", "destination windows are aggregated from the whole window's base data", ruleAggregateFromWholeWindow},
+			{"R24.4", "no pointer to a range variable outlives its iteration (timeframe bounds)", ruleNoEscapingRangeVarAddress},
 			{"R31.3", "window ends come from the calendar-aware functions, never from start + nominal duration", ruleNoNominalDurationArithmetic},
 		},
 	})
